@@ -1075,7 +1075,7 @@ def x_setexpr(P, te, sc, s):
 def xobl_ok(XP, o):
     k = o[0]
     if k == "XAmbBare":
-        return o[4] in o[2] or bare_count(o[1], o[4]) <= 1
+        return (list(o[2]).count(o[4]) if o[4] in o[2] else bare_count(o[1], o[4])) <= 1
     if k == "XAmbQual":
         return qual_count(o[1], o[3], o[4]) <= 1
     if k == "XWFrame":
